@@ -179,7 +179,11 @@ def check(model: Model, tier: str):
     # rmax forwarded by TT.round
     f = model.func("_tt_base.TT.round")
     for call in al.find_calls(model, f, "torchtt._decomposition.round_tt"):
-        passes = len(call.args) >= 4 and isinstance(call.args[3], ast.Name) and call.args[3].id == "rmax"
+        from ..model import bound_args
+        ba = bound_args(model.functions["torchtt._decomposition.round_tt"], call) or {}
+        cap_param = model.functions["torchtt._decomposition.round_tt"].params()[3] if len(model.functions["torchtt._decomposition.round_tt"].params()) > 3 else None
+        a3 = ba.get(cap_param) if cap_param else (call.args[3] if len(call.args) >= 4 else None)
+        passes = isinstance(a3, ast.Name) and a3.id == "rmax"
         obs.append(Ob("RANK-CAP", "_tt_base.TT.round:RANK-CAP:rmax-passed", OK if passes else VIOLATED, model.where(f, call),
                       norm(call)[:100], "rmax forwarded" if passes else "rmax is not forwarded to round_tt"))
     # operand intact (E3)
